@@ -22,4 +22,25 @@ TEXT = {
         level_note='Trusted: the reference model (a std::map), the sim backend stub for layer 1; verdicts use only public behaviour (tokens returned, lookup result/abort).',
         technique='deterministic simulation: seeded operation histories vs reference model, shrinking, replay',
     ),
+
 }
+_MEM_NOTE = ('Trusted: the sim backend stub and scripted guest (models of out-of-tree plug-ins), the simulator\'s own region table and ABI model. '
+             'Real code: all of /repo/code/include core. Sampling, not enumeration.')
+TEXT.update({
+    'C02': dict(level_text=('Run-time half only: assign_raw_pointer (tainted and tainted_volatile destinations) and UNSAFE_accept_pointer are exercised over 14 address classes '
+                            '(own region first/last/interior, other live sandboxes, former region of a destroyed sandbox, one before/past, heap, stack, function, 4 GiB alias) '
+                            'with 1-4 sandboxes created/destroyed in plan order; accept <=> address inside that sandbox\'s live region, stored value/representation exact, '
+                            'destination unchanged on refusal. The does-not-compile clauses are not decidable by running anything and are not claimed.'),
+                design_ref='DESIGN.md section 5, C02', level_note=_MEM_NOTE, technique='deterministic simulation: seeded multi-sandbox histories, reference region table, shrinking, replay'),
+    'C03': dict(level_text=('Invariant checked after every step of seeded pointer-derivation chains fed by a hostile guest: every produced tainted data pointer is null or inside the '
+                            'region of the sandbox it was derived from, or the operation aborted. Sampling evidence over chains <=60 ops, 8 pointee types, 5 operand types x 3 wrapper forms.'),
+                design_ref='DESIGN.md section 5, C03', level_note=_MEM_NOTE, technique='deterministic simulation: hostile-guest value injection, invariant after every step, shrinking, replay'),
+    'C04': dict(level_text=('Guest-view bytes after stores, application-side addresses after loads, values seen by guest functions and callbacks, representation received by free, '
+                            'for cells / struct fields / arrays of pointers / whole-struct copies / invoke and callback arguments and results, with and without sandbox context '
+                            '(mask and registry flavours), 1-4 live sandboxes created and destroyed in any order. Sampling evidence.'),
+                design_ref='DESIGN.md section 5, C04', level_note=_MEM_NOTE, technique='deterministic simulation: multi-sandbox histories, byte-level guest-view oracle, shrinking, replay'),
+    'C14': dict(level_text=('Reference state machine per sandbox object {not created, created, failed create} with incarnation counter, checked operation by operation under seeded '
+                            'histories including double create/destroy, injected backend create failure, use outside the window, owners that outlive destroy and destroy/create cycles, '
+                            're-creation with another library; registry observed through the registry-flavoured backend stub. Sampling evidence.'),
+                design_ref='DESIGN.md section 5, C14', level_note=_MEM_NOTE, technique='deterministic simulation: lifecycle histories with injected create failure vs reference state machine, shrinking, replay'),
+})
